@@ -828,9 +828,10 @@ fn rows(w: u8, hmax: usize) -> BoxedStrategy<Vec<Row>> {
     ]
     .boxed()
 }
-fn cases(fmt: usize) -> BoxedStrategy<Case> {
+fn cases(fmt: usize, steer_bom: bool) -> BoxedStrategy<Case> {
     let w = width_of(fmt) as u8;
-    let bom = if matches!(fmt, CTRLA | REN | ASC) { proptest::bool::weighted(0.01).boxed() } else { Just(false).boxed() };
+    // while the finding C15-cp437-content-starting-with-utf8-bom is open, its precondition is not generated (the witness keeps it)
+    let bom = if matches!(fmt, CTRLA | REN | ASC) && !steer_bom { proptest::bool::weighted(0.01).boxed() } else { Just(false).boxed() };
     let alt = if fmt == REN { prop_oneof![3 => Just(0u8), 1 => 0u8..9].boxed() } else { Just(0u8).boxed() };
     (0u8..3, alt, bom, rows(w, max_height(fmt))).prop_map(move |(prep, alt, bom, rows)| Case { fmt: fmt as u8, prep, alt, bom, rows }).boxed()
 }
@@ -917,9 +918,11 @@ fn main() {
     eng.assume("a cell shows palette RGB of its foreground (entry+8 when bold and entry<8) and background as Buffer::render_to_rgba does; saved colours are the entries of the DOS default palette");
     eng.assume("cells missing from the loaded buffer count as blank on black; cells after the end of a saved row and outside the saved rectangle must load as NUL/space on black (foreground not compared there); NUL and space are one blank");
     eng.assume("ATASCII: inverse video = background entry > 0 (the writer's own definition); colours are not compared for ASCII");
+    let steer_bom = eng.finding_open("C15-cp437-content-starting-with-utf8-bom");
+    eng.extra("steered_away", icyv::serde_json::json!({"utf8_bom_prefix (1% of ctrla/renegade/ascii buffers)": steer_bom}));
     for fmt in 0..6usize {
         let name: &'static str = FMTS[fmt].0;
-        eng.generated_min(PartCfg::new(name, 160_000, 3_000_000).shrink_budget(1500), move || cases(fmt), check, |c: &Case| format!("prep{}", c.prep), minimize);
+        eng.generated_min(PartCfg::new(name, 160_000, 3_000_000).shrink_budget(1500), move || cases(fmt, steer_bom), check, |c: &Case| format!("prep{}", c.prep), minimize);
     }
     eng.run();
 }
